@@ -31,3 +31,39 @@ PROPS["C06"]["streams"] += [S("sysc", 6000, 80000)]
 PROPS["C06"]["rule"] += (" | sysc (see C05): origin answers labelled Content-Encoding: gzip / br on a rule without recompression, stored, revalidated by 304, replayed; oracle for C06: a response that the "
                          "C05 / C07 history oracles judge wrong in body or framing, outside every listed class, for a resource whose origin answer carries a Content-Encoding")
 PROPS["C06"]["trivial_labels"] = list(PROPS["C06"].get("trivial_labels", [])) + ["no-origin", "unparsed"]
+
+# The system-level theorems of Model.SysCache lifted to Model.SysCacheRH for ARBITRARY response_headers (Props.SysCacheRHLift; helper lemmas Lemmas.SysCacheRH:
+# stepOnceRH_eq - one activation of the wrapper is the base activation with ai (row f:304), or with applyRH rh ai, or the answer w:uncacheable-rule)
+_RHL_TERM = [
+    T("Props.SysCacheRHLift.reenter_skip_true_RH", "full", "Model.SysCacheRH, every rh: every Step.reenter produced by stepOnceRH carries skipRevalidate = true"),
+    T("Props.SysCacheRHLift.skip_activation_answers_RH", "full", "Model.SysCacheRH, every rh: an activation with skipRevalidate = true answers (every disk, header, origin, clock)"),
+    T("Props.SysCacheRHLift.fuel_two_suffices_RH", "full", "TERMINATION for rules with response_headers, unconditional: for every cfg, rh, origin, clock, request, disk, headers and fuel >= 2, cachingFuncRH with that fuel equals cachingFuncRH with fuel 2"),
+    T("Props.SysCacheRHLift.answered_RH", "full", "for fuel >= 2 the label of cachingFuncRH never ends in `fuel`"),
+    T("Props.SysCacheRHLift.run_answered_RH", "full", "no observation of any history runRH (every rh, every state) has a label ending in `fuel`"),
+    T("Props.SysCacheRHLift.Ex.one_unit_not_enough_RH", "witness", "the bound 2 is sharp under a rule with a response header: fuel 1 gives w:304>fuel, fuel 2 gives w:304>f:hit"),
+]
+_RHL_C10 = [
+    T("Props.SysCacheRHLift.other_methods_bypass_RH", "full", "Model.SysCacheRH, every rh: a method other than GET/HEAD leaves the disk as it was, makes exactly one contact (the client's own header), answers on the plain stack with the rule's headers Set into alwaysInclude (u:pass / u:err)"),
+    T("Props.SysCacheRHLift.authorization_never_stores_RH", "full", "Model.SysCacheRH, every rh, every fuel: a request with Authorization only ever removes files (Shrinks)"),
+    T("Props.SysCacheRHLift.doNotCache_answer_never_stored_RH", "full", "Model.SysCacheRH, every rh: in a writer row an origin answer whose directives forbid storing ends the activation with the disk exactly as it was (w:416 or w:uncacheable)"),
+    T("Props.SysCacheRHLift.rule_forbids_only_removes_unless_304", "full", "ruleForbids rh: every activation of stepOnceRH only removes files (Shrinks) unless it is the re-entry w:304> of a RevalidatingWriter (the origin confirmed an entry that was ALREADY stored: republish rewrites its xattr)"),
+    T("Props.SysCacheRHLift.rule_forbids_never_stores", "full", "ruleForbids rh: for every activation (every disk, request, origin, clock) every cell of the disk afterwards is the cell before, or empty, or the same BODY with a rewritten xattr (NoNewBody): no path gets a file, no body byte is written"),
+    T("Props.SysCacheRHLift.rule_forbids_skip_only_removes", "full", "ruleForbids rh: an activation with skipRevalidate = true (every re-entry) only removes files"),
+    T("Props.SysCacheRHLift.rule_forbids_never_stores_cachingFuncRH", "full", "... lifted to whole requests, every fuel"),
+    T("Props.SysCacheRHLift.rule_forbids_never_stores_history", "full", "... and to every state of every history (stateAfterRH): NoNewBody relative to the starting disk"),
+    T("Props.SysCacheRHLift.rule_forbids_cache_stays_empty", "full", "from the empty cache, under a rule whose response headers forbid storing, the disk is empty in every state of every history"),
+    T("Props.SysCacheRHLift.Ex.forbids_miss_stores_nothing", "witness", "non-vacuity: rule Cache-Control: no-store, cacheable origin answer: label w:uncacheable-rule, the whole body, nothing on the disk"),
+    T("Props.SysCacheRHLift.Ex.forbids_304_not_shrinks", "witness", "the exception is real: an entry stored earlier, due, a conditional origin: under the forbidding rule the activation re-publishes it (plain Shrinks fails, the body is unchanged)"),
+]
+_RHL_C07 = [
+    T("Props.SysCacheRHLift.hit_replays_entry_RH", "full", "Model.SysCacheRH, every rh: a hit (GET/HEAD, no Range) answers at once, without contact, with the stored status, the first Metadata.Size bytes of the file and the header suffixETag (copyHeaders stored (applyRH rh ai + cache status + Age))"),
+    T("Props.SysCacheRHLift.rule_header_wins", "full", "on such a hit, for a name k other than richie-edge-cache / Age / Etag, the client's header carries exactly [v] for the LAST pair (k, v) of rh with that canonical name, whatever the stored entry says under it (ai Normal: [] at request start)"),
+    T("Props.SysCacheRHLift.rule_header_wins_nodup", "full", "... for every pair of a rule whose names have pairwise different canonical forms"),
+    T("Props.SysCacheRHLift.Ex.last_pair_wins", "witness", "X-Rule: 1 ... x-rule: 2 on the rule: the hit carries x-rule = 2"),
+    T("Props.SysCacheRHLift.Ex.rule_overrides_stored", "witness", "the rule's Cache-Control: private replaces the stored Cache-Control: max-age=60 in the hit's header"),
+]
+for _pid, _ths in (("C05", _RHL_TERM), ("C10", _RHL_C10), ("C07", _RHL_C07)):
+    p = PROPS[_pid]
+    if "RrProofs.Props.SysCacheRHLift" not in p["modules"]:
+        p["modules"].append("RrProofs.Props.SysCacheRHLift")
+    p["theorems"] += _ths
